@@ -142,13 +142,13 @@ func instrIndex(in ssa.Instruction) int {
 func Dominates(a, b ssa.Instruction) bool {
 	if a.Parent() != b.Parent() {
 		// b inside a transparent helper: a must dominate (or be) its call site
-		if s := siteOf(b.Parent()); s != nil && rawTop(b.Parent()) == b.Parent() {
+		if s := siteOf(b.Parent()); s != nil {
 			if a == ssa.Instruction(s) || Dominates(a, s) {
 				return true
 			}
 		}
 		// a inside a transparent helper: a must be executed on every path through the helper, and the site dominate b
-		if s := siteOf(a.Parent()); s != nil && rawTop(a.Parent()) == a.Parent() {
+		if s := siteOf(a.Parent()); s != nil {
 			h := a.Parent()
 			all := true
 			for _, blk := range h.Blocks {
@@ -209,7 +209,7 @@ func Guards(in ssa.Instruction) []Guard {
 	var out []Guard
 	blk := in.Block()
 	fn := blk.Parent()
-	if s := siteOf(fn); s != nil && rawTop(fn) == fn {
+	if s := siteOf(fn); s != nil {
 		out = append(out, Guards(s)...)
 	}
 	for _, b := range fn.Blocks {
@@ -326,9 +326,7 @@ func canReach(fn *ssa.Function, from ssa.Instruction, stop instrPred, atEnd func
 		return false, nil
 	}
 	entry := fn.Blocks[0]
-	if rawTop(fn) == fn {
-		fn = ownerOf(fn) // a transparent helper's returns resume in its caller
-	}
+	fn = ownerOf(fn) // a transparent helper's returns resume in its caller
 	type item struct {
 		b     *ssa.BasicBlock
 		start int
@@ -380,7 +378,7 @@ func canReach(fn *ssa.Function, from ssa.Instruction, stop instrPred, atEnd func
 		}
 		// a return of a transparent helper resumes after its call site
 		if f := it.b.Parent(); f != fn && len(it.b.Succs) == 0 {
-			if s := siteOf(f); s != nil && rawTop(f) == f {
+			if s := siteOf(f); s != nil {
 				if _, isRet := it.b.Instrs[len(it.b.Instrs)-1].(*ssa.Return); isRet {
 					work = append(work, item{s.Block(), instrIndex(s) + 1, trail})
 				}
@@ -883,7 +881,7 @@ func (li *LockInfo) Held(in ssa.Instruction) LockSet {
 	}
 	// an instruction of a transparent helper: the helper starts with the locks held at its call site
 	if f := in.Parent(); f != nil && f != li.fn {
-		if s := siteOf(f); s != nil && rawTop(f) == f {
+		if s := siteOf(f); s != nil {
 			entry := LockSet{}
 			for k, v := range li.Held(s) {
 				entry[k] = v
@@ -1029,13 +1027,17 @@ func rawTop(fn *ssa.Function) *ssa.Function {
 // resolved to their function, transparent helpers to the function they were
 // extracted from.
 func EnclosingTop(fn *ssa.Function) *ssa.Function {
-	top := rawTop(fn)
-	for i := 0; i < 8; i++ {
-		s := transparentSite[top]
-		if s == nil {
-			break
+	top := fn
+	for i := 0; i < 24; i++ {
+		if s := transparentSite[top]; s != nil {
+			top = s.Parent()
+			continue
 		}
-		top = rawTop(s.Parent())
+		if top.Parent() != nil {
+			top = top.Parent()
+			continue
+		}
+		break
 	}
 	return top
 }
@@ -1200,9 +1202,7 @@ func PrunedCanReach(fn *ssa.Function, from ssa.Instruction, assumes []Assume, ta
 		return false, nil
 	}
 	entry := fn.Blocks[0]
-	if rawTop(fn) == fn {
-		fn = ownerOf(fn) // a transparent helper's returns resume in its caller
-	}
+	fn = ownerOf(fn) // a transparent helper's returns resume in its caller
 	type item struct {
 		b       *ssa.BasicBlock
 		pred    *ssa.BasicBlock
@@ -1320,7 +1320,7 @@ func PrunedCanReach(fn *ssa.Function, from ssa.Instruction, assumes []Assume, ta
 			continue
 		}
 		if f := it.b.Parent(); f != fn && len(it.b.Succs) == 0 {
-			if s := siteOf(f); s != nil && rawTop(f) == f {
+			if s := siteOf(f); s != nil {
 				if ret, isRet := it.b.Instrs[len(it.b.Instrs)-1].(*ssa.Return); isRet {
 					// remember what this path returns: conditions on the call's results are decided from it
 					npr := map[*ssa.Call][]ssa.Value{}
